@@ -97,20 +97,20 @@ Diagnose ==
     ELSE IF Rec.ev = "qr" THEN
         (IF ~ShapeOK THEN "shapes of the factors / charge list inconsistent"
          ELSE IF ~DimBoundP THEN "intermediate dimension exceeds the smaller matrix dimension"
-         ELSE IF ~DimBound THEN "spec: intermediate dimension exceeds the block-wise bound"
+         ELSE IF Strict /\ (~DimBound) THEN "spec: intermediate dimension exceeds the block-wise bound"
          ELSE IF ~SparseFactors THEN "a factor is not block sparse under the returned intermediate charges"
          ELSE IF IsDummyCall /\ ~(Dl = 1 /\ \A c \in 1..Rec.n : Rec.ss[1][c] = 0) THEN "dummy bond malformed"
          ELSE IF ~NumericOK THEN "residual / isometry defect / dtype out of bounds (mode N)"
          ELSE IF Rec.exact /\ ~ExactProduct THEN "Q R # A exactly"
          ELSE IF Rec.exact /\ ~ExactIsometry THEN "Q^H Q # 1 exactly"
          ELSE IF Dl < 1 THEN "no intermediate state"
-         ELSE "spec: intermediate dimension differs from the block-wise rank of a generic matrix")
+         ELSE IF Strict THEN "spec: intermediate dimension differs from the block-wise rank of a generic matrix" ELSE "a property clause of this event failed (no specific diagnostic)")
     ELSE IF Rec.ev = "svd" THEN
         (IF ~ShapeOK THEN "shapes inconsistent"
          ELSE IF ~SparseFactors THEN "a factor is not block sparse under the returned intermediate charges"
          ELSE IF ~Rec.input_unchanged THEN "input array modified"
          ELSE IF ~(IsDummyCall \/ Rec.allzero \/ DimBoundP) THEN "intermediate dimension exceeds the smaller matrix dimension"
-         ELSE IF ~(IsDummyCall \/ Rec.allzero \/ DimBound) THEN "spec: intermediate dimension exceeds the block-wise bound"
+         ELSE IF Strict /\ (~(IsDummyCall \/ Rec.allzero \/ DimBound)) THEN "spec: intermediate dimension exceeds the block-wise bound"
          ELSE IF ~Rec.s_positive THEN "non-positive singular value returned"
          ELSE IF ~NumericOK THEN "error identity / tolerance bound / maximality / isometry out of bounds (mode N)"
          ELSE IF Rec.exact /\ ~KeepAllowed(Rec.allw, [k \in 1..Dl |-> Rec.sv[k] * Rec.sv[k]], Rec.tn, Rec.td) THEN "kept singular values are not the ones prescribed by the tolerance rule"
@@ -119,7 +119,7 @@ Diagnose ==
     ELSE IF Rec.ev = "rbi" THEN
         (IF ~Rec.input_unchanged THEN "retained_bond_indices: input modified"
          ELSE IF ~KeepAllowed(Rec.ws, [k \in DOMAIN Rec.idx |-> Rec.ws[Rec.idx[k] + 1]], Rec.tn, Rec.td) THEN "retained_bond_indices: index set differs from the tolerance rule"
-         ELSE IF ~(\A a \in 1..(Len(Rec.idx) - 1) : Rec.idx[a] < Rec.idx[a + 1]) /\ (\A a, b \in DOMAIN Rec.idx : a # b => Rec.idx[a] # Rec.idx[b]) THEN "spec: retained_bond_indices: indices not in ascending order"
+         ELSE IF Strict /\ (~(\A a \in 1..(Len(Rec.idx) - 1) : Rec.idx[a] < Rec.idx[a + 1]) /\ (\A a, b \in DOMAIN Rec.idx : a # b => Rec.idx[a] # Rec.idx[b])) THEN "spec: retained_bond_indices: indices not in ascending order"
          ELSE "retained_bond_indices: repeated or out-of-range index")
     ELSE IF Rec.ev = "split" THEN "split_mps_tensor: merge / sparsity / isometry / input flags"
     ELSE "unexpected event"
